@@ -24,6 +24,7 @@ import (
 	"mosn.io/mosn/pkg/router"
 	"mosn.io/mosn/pkg/types"
 	"mosn.io/mosn/pkg/upstream/cluster"
+	"mosn.io/pkg/variable"
 	"verif/harness/hx"
 )
 
@@ -34,7 +35,9 @@ type lbctx struct{ m api.MetadataMatchCriteria }
 func (c *lbctx) MetadataMatchCriteria() api.MetadataMatchCriteria { return c.m }
 func (c *lbctx) DownstreamConnection() net.Conn                   { return nil }
 func (c *lbctx) DownstreamHeaders() api.HeaderMap                 { return nil }
-func (c *lbctx) DownstreamContext() context.Context               { return context.Background() }
+func (c *lbctx) DownstreamContext() context.Context {
+	return variable.NewVariableContext(context.Background()) // fresh per call: request-round-robin starts at index 0
+}
 func (c *lbctx) DownstreamCluster() types.ClusterInfo             { return nil }
 func (c *lbctx) DownstreamRoute() api.Route                       { return nil }
 
@@ -47,6 +50,7 @@ type hostSpec struct {
 }
 
 type config struct {
+	lbType    string // inner policy; "" = LB_ROUNDROBIN
 	policy    int
 	dflt      []pair     // unique keys, sorted by key (it is a Go map in the configuration)
 	selectors [][]string // raw configuration (unsorted, duplicates, empty selectors possible)
@@ -116,6 +120,9 @@ func parseCase(toks []string) (kind string, c *config, q query, ok bool) {
 	}
 	c = &config{}
 	kind = toks[0]
+	if strings.HasPrefix(kind, "in.") {
+		c.lbType = kind[3:]
+	}
 	fmt.Sscan(toks[1], &c.policy)
 	c.dflt = parsePairs(toks[2])
 	if toks[3] != "-" {
@@ -160,6 +167,9 @@ type built struct {
 
 func (c *config) clusterConfig() v2.Cluster {
 	cfg := v2.Cluster{Name: "c15", ClusterType: v2.SIMPLE_CLUSTER, LbType: v2.LB_ROUNDROBIN}
+	if c.lbType != "" {
+		cfg.LbType = v2.LbType(c.lbType)
+	}
 	cfg.LBSubSetConfig.FallBackPolicy = uint8(c.policy)
 	if len(c.dflt) > 0 {
 		cfg.LBSubSetConfig.DefaultSubset = map[string]string{}
@@ -299,6 +309,9 @@ func runCase(c *hx.Ctx, cfg *config, qs []query, viaCluster bool) {
 	ct := cfg.tokens()
 	for _, q := range qs {
 		kind, qt := "q", q.kind
+		if cfg.lbType != "" {
+			kind = "in." + cfg.lbType
+		}
 		switch q.kind {
 		case "crit":
 			_, order := q.criteria()
@@ -382,9 +395,72 @@ func genSelector(c *hx.Ctx) []string {
 	return s
 }
 
+// genCollisionHosts: two keys whose value-1 host index sets have the same minimum, maximum and size but different
+// members (the pre-index builder memoises selected host lists under a hash of exactly those three numbers).
+func genCollisionHosts(c *hx.Ctx, n int) []hostSpec {
+	r := c.Rng
+	hs := genHosts(c, n)
+	if n < 4 {
+		return hs
+	}
+	lo := r.Intn(n - 3)
+	hi := lo + 3 + r.Intn(n-lo-3)
+	mid := hi - lo - 1 // >= 2 inner positions
+	k := 1 + r.Intn(mid-1)
+	pick := func() map[int]bool {
+		m := map[int]bool{lo: true, hi: true}
+		for len(m) < k+2 {
+			m[lo+1+r.Intn(mid)] = true
+		}
+		return m
+	}
+	s1, s2 := pick(), pick()
+	keys := []string{"a", "b", "c"}
+	k1 := keys[r.Intn(3)]
+	k2 := keys[(r.Intn(2)+1+indexOf(keys, k1))%3]
+	for i := range hs {
+		var m []pair
+		for _, p := range hs[i].meta {
+			if p.k != k1 && p.k != k2 {
+				m = append(m, p)
+			}
+		}
+		if s1[i] {
+			m = append(m, pair{k1, "1"})
+		} else if r.Chance(50) {
+			m = append(m, pair{k1, "2"})
+		}
+		if s2[i] {
+			m = append(m, pair{k2, "1"})
+		} else if r.Chance(50) {
+			m = append(m, pair{k2, "2"})
+		}
+		sort.Slice(m, func(x, y int) bool { return m[x].k < m[y].k })
+		hs[i].meta = m
+	}
+	return hs
+}
+
+func indexOf(l []string, s string) int {
+	for i, x := range l {
+		if x == s {
+			return i
+		}
+	}
+	return 0
+}
+
 func genConfig(c *hx.Ctx, n int) *config {
 	r := c.Rng
 	cfg := &config{hosts: genHosts(c, n)}
+	collide := n >= 4 && r.Chance(15)
+	if collide {
+		cfg.hosts = genCollisionHosts(c, n)
+		c.Count("config.index-set-collision-shape")
+		defer func() { // single-key selectors over all three keys so that both colliding sets are selected
+			cfg.selectors = append(cfg.selectors, []string{"a"}, []string{"b"}, []string{"c"})
+		}()
+	}
 	switch x := r.Intn(100); {
 	case x < 30:
 		cfg.policy = 0
@@ -604,7 +680,17 @@ func replayCorpus(c *hx.Ctx) {
 	}
 }
 
+// mixSeed: hx.NewRng(seed+1) is hx.NewRng(seed) advanced by one draw (the seed multiplier equals the generator's
+// increment), so consecutive seeds would replay almost the same cases; hash the seed to an unrelated offset.
+func mixSeed(z uint64) uint64 {
+	z += 0xC15C15C15C15C15
+	z = (z ^ (z >> 30)) * 0xBF58476D1CE4E5B9
+	z = (z ^ (z >> 27)) * 0x94D049BB133111EB
+	return z ^ (z >> 31)
+}
+
 func Run(c *hx.Ctx) {
+	c.Rng = hx.NewRng(mixSeed(c.Seed))
 	replayCorpus(c)
 	// fixed boundary configurations
 	for _, cfg := range boundaryConfigs() {
@@ -628,6 +714,25 @@ func Run(c *hx.Ctx) {
 		} else {
 			c.Count("built.direct-constructors")
 		}
+	}
+	// inner-policy variety: the other registered balancers as the subset's inner policy, all hosts healthy (their
+	// health handling is property C05); the observation is compared as "chosen hosts are allowed targets".
+	inner := []string{"LB_RANDOM", "LB_WEIGHTED_ROUNDROBIN", "LB_LEAST_REQUEST", "LB_LEAST_CONNECTION", "LB_REQUEST_ROUNDROBIN", "LB_PEAK_EWMA"}
+	for i := 0; i < c.N(240, 2400); i++ {
+		cfg := genConfig(c, 1+c.Rng.Intn(8))
+		for j := range cfg.hosts {
+			cfg.hosts[j].healthy = true
+		}
+		cfg.lbType = inner[i%len(inner)]
+		var qs []query
+		for _, q := range genQueries(c, cfg) {
+			// no nil-context query here: request-round-robin and maglev dereference the context (not a C15 matter)
+			if q.kind != "raw" && q.kind != "nilctx" {
+				qs = append(qs, q)
+			}
+		}
+		runCase(c, cfg, qs, len(cfg.selectors) > 0 && c.Rng.Chance(30))
+		c.Count("inner." + cfg.lbType)
 	}
 	if c.Thorough() {
 		exhaustiveSmall(c)
@@ -659,6 +764,10 @@ func boundaryConfigs() []*config {
 			hosts: []hostSpec{h("h0", true, "a", "1", "b", "1"), h("h1", true, "a", "1")}})
 		out = append(out, &config{policy: policy, selectors: [][]string{{"b", "a"}, {"a", "b", "a"}}, dflt: []pair{{"d", "x"}},
 			hosts: []hostSpec{h("h0", true, "a", "1", "b", "1", "d", "x"), h("h1", true, "a", "1", "b", "2"), h("h2", true, "d", "x")}})
+		// two index sets with equal min / max / size and different members
+		out = append(out, &config{policy: policy, selectors: [][]string{{"a"}, {"b"}, {"a", "b"}},
+			hosts: []hostSpec{h("h0", true, "a", "1", "b", "1"), h("h1", true, "a", "1", "b", "2"), h("h2", true, "a", "2", "b", "1"),
+				h("h3", true, "a", "1", "b", "1")}})
 		// the Envoy documentation example used by MOSN's unit tests
 		out = append(out, &config{policy: policy, dflt: []pair{{"stage", "prod"}, {"type", "std"}, {"version", "1.0"}},
 			selectors: [][]string{{"stage", "type"}, {"stage", "version"}, {"version"}, {"xlarge", "version"}},
